@@ -446,6 +446,66 @@ func c17R6(c *Ctx) {
 		}
 	}
 	c.check(wait != nil && load != nil && domI(wait, load), "sendAction/wait-then-load", c.pos(sa.Pos()), "the tunnel decision is read after the bounded wait", "sendAction reads the tunnel connection without waiting for the connect attempt")
+	// "both ends agree": the server takes the tunnel into use only when the client's action says so,
+	// the client only when it holds an adopted connection; nobody else sets the flag
+	for _, f := range c.AllFns {
+		fname := c.fnName(f)
+		eachInstr(f, func(in ssa.Instruction) {
+			st, ok := in.(*ssa.Store)
+			if !ok {
+				return
+			}
+			if n, _ := fieldAddrName(st.Addr); n != "trzszTransfer.tunnelConnected" {
+				return
+			}
+			b, isC := constBool(st.Val)
+			fs := factsAt(st.Block())
+			switch fname {
+			case "trzszTransfer.recvAction":
+				agreed := false
+				for _, fc := range fs {
+					if fc.Pol && isFieldLoad("TunnelConnected")(fc.V) {
+						agreed = true
+					}
+				}
+				c.check(isC && b && agreed, "tunnelConnected@recvAction", c.ipos(st), "the server uses the tunnel only when the client's action announces it", "the server decides on its own that the tunnel is in use (the client may have fallen back to in-band after its grace period)")
+			case "trzszTransfer.sendAction":
+				held := false
+				for _, fc := range fs {
+					op, x, y, okC := cmpFact(fc)
+					if okC && op == token.NEQ && (isNilConst(x) || isNilConst(y)) {
+						for _, v := range []ssa.Value{x, y} {
+							if call, _ := callOf(v); call != nil && isAtomicOnField(call, "tunnelConn", "Load") {
+								held = true
+							}
+						}
+					}
+				}
+				c.check(isC && b && held, "tunnelConnected@sendAction", c.ipos(st), "the client announces the tunnel only when it holds the adopted connection", "the client announces a tunnel it does not hold")
+			default:
+				c.bad("tunnelConnected/writer."+fname, c.ipos(st), "the tunnel-in-use flag is written outside the action exchange")
+			}
+		})
+	}
+	// the action the client sends carries that same decision
+	sa2 := c.fn("trzszTransfer.sendAction")
+	announced := false
+	eachInstr(sa2, func(in ssa.Instruction) {
+		if st, ok := in.(*ssa.Store); ok {
+			if n, _ := fieldAddrName(st.Addr); n == "transferAction.TunnelConnected" {
+				if b, isC := constBool(st.Val); isC && b {
+					for _, x := range st.Block().Instrs {
+						if s2, ok := x.(*ssa.Store); ok {
+							if n2, _ := fieldAddrName(s2.Addr); n2 == "trzszTransfer.tunnelConnected" {
+								announced = true
+							}
+						}
+					}
+				}
+			}
+		}
+	})
+	c.check(announced, "sendAction/announce=use", c.pos(sa2.Pos()), "the client's announcement and its own use of the tunnel are set together", "the client's announcement of the tunnel is not tied to its own use of it")
 	for _, fn := range []string{"trzszTransfer.sendAction", "trzszTransfer.recvAction"} {
 		f := c.fn(fn)
 		eachInstr(f, func(in ssa.Instruction) {
